@@ -214,6 +214,8 @@ package tcell
 
 //@ spec mergeColor(nw Color, old Color) Color = nw == ColorNone ? old : nw
 
+//@ pred fillKept(c cell, c0 cell) = (c.lastMain == c0.lastMain || c.lastMain == 0) && sameLastTail(c, c0) && c.lock == c0.lock
+//@ pred fillAhead(c cell, c0 cell) = sameCurr(c, c0) && fillKept(c, c0)
 //@ func (*CellBuffer).Fill
 //@   arith math
 //@   requires cbwf(cb)
@@ -226,16 +228,16 @@ package tcell
 //@              cb.cells[k].currStyle.bg == mergeColor(style.bg, old(cb.cells[k].currStyle.bg)) &&
 //@              cb.cells[k].currStyle.attrs == style.attrs && cb.cells[k].currStyle.ulStyle == style.ulStyle &&
 //@              cb.cells[k].currStyle.ulColor == style.ulColor && cb.cells[k].currStyle.url == style.url && cb.cells[k].currStyle.urlId == style.urlId &&
-//@              cb.cells[k].lastMain == old(cb.cells[k].lastMain) && sameLastTail(cb.cells[k], old(cb.cells[k])) && cb.cells[k].lock == old(cb.cells[k].lock)
-//@   loop 1: invariant [idx] -1 <= rangeindex && rangeindex < len(cb.cells) && shapeKept(cb, old(cb.w), old(cb.h), old(cb.cells))
+//@              fillKept(cb.cells[k], old(cb.cells[k]))
+//@   loop 1: invariant [idx] -1 <= rangeindex && rangeindex < len(cb.cells) && shapeKept(cb, old(cb.w), old(cb.h), old(cb.cells)) && cbwf(cb)
 //@           invariant [done] forall k int :: 0 <= k && k <= rangeindex ==>
 //@              cb.cells[k].currMain == r && isNil(cb.cells[k].currComb) && cb.cells[k].width == cellW(r) &&
 //@              cb.cells[k].currStyle.fg == mergeColor(style.fg, old(cb.cells[k].currStyle.fg)) &&
 //@              cb.cells[k].currStyle.bg == mergeColor(style.bg, old(cb.cells[k].currStyle.bg)) &&
 //@              cb.cells[k].currStyle.attrs == style.attrs && cb.cells[k].currStyle.ulStyle == style.ulStyle &&
 //@              cb.cells[k].currStyle.ulColor == style.ulColor && cb.cells[k].currStyle.url == style.url && cb.cells[k].currStyle.urlId == style.urlId &&
-//@              cb.cells[k].lastMain == old(cb.cells[k].lastMain) && sameLastTail(cb.cells[k], old(cb.cells[k])) && cb.cells[k].lock == old(cb.cells[k].lock)
-//@           invariant [rest] forall k int :: rangeindex < k && k < len(cb.cells) ==> cb.cells[k] == old(cb.cells[k])
+//@              fillKept(cb.cells[k], old(cb.cells[k]))
+//@           invariant [rest] forall k int :: rangeindex < k && k < len(cb.cells) ==> fillAhead(cb.cells[k], old(cb.cells[k]))
 //@           decreases len(cb.cells) - rangeindex
 //@   ensures [width-inv] wi0 ==> cbwidthinv(cb)
 //@   ensures [widths] wd0 ==> cbwidths(cb)
